@@ -1,9 +1,16 @@
-"""C14 translator: the source shapes Model/GlobalsSync.v is written against.
-driver/src/api/repl.rs: clear_frames first, update_global_mutability after compile_typed,
-`vm.execute(func_ref)?` before sync_globals_to_hashmap (so: sync only on success);
-runtime/src/vm/call_api/{kinds,cached}.rs: the host call entry points prepare the globals and push a
-frame -- do they clear the frame stack first?; calls.inc Return: sync/prepare only towards a
-caller frame with a non-zero mapping id."""
+"""C14 translator: the order of steps and the guard conditions Model/Session.v and Model/GlobalsSync.v are
+written against, read off the source STRUCTURALLY (identifier-agnostic, layout-agnostic: conditions are
+found as the guard of the block that encloses a call, local `let` names are resolved to their
+definitions, stages are found by the method that is called, whatever the receiver is spelled like):
+
+driver/src/api/repl.rs            the driver loop: clear_frames, load_modules_for_program, compile_typed,
+                                  update_global_mutability + add_repl_* of the imports, alloc_function,
+                                  execute()?, sync_globals_to_hashmap, add_repl_known_globals
+driver/src/modules/loader/compile.rs   a module: execute()?, sync_globals_to_hashmap, register_exports
+runtime/src/vm/call_api/{kinds,cached}.rs   host calls: arity check, prepare, push_frame, run_fast
+runtime/src/vm/dispatch/ops/*.inc  every layout switch (sync_loaded_globals) and what its guard compares with;
+                                  Return: the switch towards the caller and the sync when leaving the run loop
+runtime/src/vm/dispatch/run.rs    run_fast: frames of a failed run are dropped"""
 import re
 import extract
 from extract import ExtractError, rd, strip_comments, write_if_changed, HEADER
@@ -13,58 +20,220 @@ def b(x):
     return "true" if x else "false"
 
 
+def fn_body(text, name):
+    """body (between the outer braces) of `fn name`"""
+    m = re.search(r"\bfn\s+" + re.escape(name) + r"\s*(?:<[^>]*>)?\s*\(", text)
+    if not m:
+        return None
+    i = text.find("{", m.end())
+    # skip a `{` inside the signature is impossible here; match braces
+    depth, j = 0, i
+    while j < len(text):
+        if text[j] == "{":
+            depth += 1
+        elif text[j] == "}":
+            depth -= 1
+            if depth == 0:
+                return text[i + 1:j]
+        j += 1
+    return None
+
+
+def all_fn_bodies(text):
+    out = []
+    for m in re.finditer(r"\bfn\s+(\w+)\s*(?:<[^>]*>)?\s*\(", text):
+        bd = fn_body(text[m.start():], m.group(1))
+        if bd is not None:
+            out.append((m.group(1), bd))
+    return out
+
+
+def pos(body, pattern):
+    """positions of all matches of a regex"""
+    return [m.start() for m in re.finditer(pattern, body)]
+
+
+def enclosing_guard(text, at):
+    """the condition of the innermost `if` whose block contains position `at` (None: not inside an if block)"""
+    depth, j = 0, at
+    while j > 0:
+        j -= 1
+        c = text[j]
+        if c == "}":
+            depth += 1
+        elif c == "{":
+            if depth == 0:
+                # header of this block: back to the previous `;`, `{` or `}`
+                k = j
+                while k > 0 and text[k - 1] not in ";{}":
+                    k -= 1
+                head = text[k:j].strip()
+                m = re.match(r"(?:else\s+)?if\s+(.*)$", head, flags=re.S)
+                if m and not m.group(1).lstrip().startswith("let "):
+                    return m.group(1).strip(), k
+                return None, k
+            depth -= 1
+    return None, 0
+
+
+def resolve(cond, text, before):
+    """replace local names bound by `let name = expr;` (latest binding before `before`) by their definitions"""
+    for _ in range(4):
+        changed = False
+        for ident in set(re.findall(r"\b[a-z_][a-z0-9_]*\b", cond)):
+            if ident in ("self", "true", "false", "len", "frames", "is_empty"):
+                continue
+            ms = [m for m in re.finditer(r"\blet\s+(?:mut\s+)?" + ident + r"\s*(?::[^=;]+)?=\s*([^;]+);", text[:before])]
+            if ms and re.search(r"(?<![\.\w])" + ident + r"\b(?!\s*\()", cond):
+                new = re.sub(r"(?<![\.\w])" + ident + r"\b(?!\s*\()", "(" + ms[-1].group(1).strip() + ")", cond)
+                if new != cond and len(new) < 2000:
+                    cond, changed = new, True
+        if not changed:
+            break
+    return re.sub(r"\s+", "", cond)
+
+
+LOADED = ("self.current_global_mapping_id", "self.current_global_layout")
+LEAVING = ("self.frames.len()==1", "self.frames.len()<=1", "self.frames.len()<2", "1==self.frames.len()")
+
+
 @extract.register("ReplShape")
 def gen_repl_shape():
+    notes = []
+    # ------------------------------------------------------------------ the driver loop
     repl = strip_comments(rd("driver/src/api/repl.rs"))
-    m = re.search(r"pub\s+fn\s+run_with_vm_and_opt\s*\(", repl)
-    if not m:
+    body = fn_body(repl, "run_with_vm_and_opt")
+    if body is None:
         raise ExtractError("run_with_vm_and_opt not found")
-    body = repl[m.end():]
-    pos = {k: body.find(k) for k in ("vm.clear_frames()", "Lexer::with_source", "compile_typed(", "vm.update_global_mutability(",
-                                     "vm.execute(func_ref)?", "vm.sync_globals_to_hashmap(", "vm.add_repl_known_globals(&new_globals_set)")}
-    if pos["Lexer::with_source"] < 0 or pos["compile_typed("] < 0 or pos["vm.execute(func_ref)?"] < 0 or pos["vm.sync_globals_to_hashmap("] < 0:
-        raise ExtractError("run_with_vm_and_opt: expected stages (lexer / compile_typed / execute? / sync_globals_to_hashmap) not found")
-    clears_first = 0 <= pos["vm.clear_frames()"] < pos["Lexer::with_source"]
-    mut_after_compile = pos["compile_typed("] < pos["vm.update_global_mutability("] < pos["vm.execute(func_ref)?"]
-    sync_after_execute = pos["vm.execute(func_ref)?"] < pos["vm.sync_globals_to_hashmap("]
-    if not (mut_after_compile and sync_after_execute):
-        raise ExtractError("run_with_vm_and_opt: order of update_global_mutability / execute / sync changed; Model/GlobalsSync.v:repl_input is out of date")
+    st = {
+        "clear": pos(body, r"\.\s*clear_frames\s*\("),
+        "parse": pos(body, r"\bLexer\s*::|\bParser\s*::"),
+        "load": pos(body, r"\bload_modules_for_program\s*\("),
+        "compile": pos(body, r"\.\s*compile_typed\s*\("),
+        "mutability": pos(body, r"\.\s*update_global_mutability\s*\("),
+        "rec_imports": pos(body, r"\.\s*add_repl_(?:module_aliases|known_native_globals|symbol_origins)\s*\("),
+        "rec_known": pos(body, r"\.\s*add_repl_known_globals\s*\("),
+        "alloc": pos(body, r"\.\s*alloc_function\s*\("),
+        "execute_q": pos(body, r"\.\s*execute\s*\([^()]*\)\s*\?"),
+        "execute": pos(body, r"\.\s*execute\s*\("),
+        "sync": pos(body, r"\.\s*sync_globals_to_hashmap\s*\("),
+    }
+    for k in ("parse", "compile", "execute", "sync"):
+        if not st[k]:
+            raise ExtractError(f"run_with_vm_and_opt: stage {k} not found (lexer/parser, compile_typed, execute, sync_globals_to_hashmap)")
+    first_work = min(st["parse"] + st["load"] + st["compile"] + st["execute"])
+    clears_first = bool(st["clear"]) and min(st["clear"]) < first_work
+    compile_at = min(st["compile"])
+    exec_at = min(st["execute"])
+    if st["load"] and not max(st["load"]) < compile_at:
+        raise ExtractError("run_with_vm_and_opt: modules are loaded after compile_typed; Model/Session.v:mstep is out of date")
+    if not (st["mutability"] and compile_at < min(st["mutability"]) and max(st["mutability"]) < exec_at):
+        raise ExtractError("run_with_vm_and_opt: update_global_mutability is not between compile_typed and execute; Model/Session.v:mstep is out of date")
+    # the imports are recorded in the VM only once the input has been accepted (after compile_typed(..)?)
+    compile_q = re.search(r"\.\s*compile_typed\s*\([^;]*\)\s*\?\s*;", body)
+    imports_after_compile = compile_q is not None and all(p > compile_at for p in st["rec_imports"]) and \
+        all(p > compile_at for p in st["rec_known"])
+    # execute()? -- an error leaves before the sync; the sync and the recording of the unit's names follow a successful run
+    sync_after_run = bool(st["execute_q"]) and min(st["execute_q"]) == exec_at and exec_at < min(st["sync"]) and \
+        bool(st["rec_known"]) and max(st["rec_known"]) > exec_at
+    if not (st["execute_q"] and min(st["execute_q"]) == exec_at):
+        raise ExtractError("run_with_vm_and_opt: the result of execute is not propagated with `?`; Model/Session.v:mstep (failing run) is out of date")
+    # ------------------------------------------------------------------ a module
+    comp = strip_comments(rd("driver/src/modules/loader/compile.rs"))
+    mbody = fn_body(comp, "compile_module")
+    if mbody is None:
+        raise ExtractError("compile_module not found")
+    me = pos(mbody, r"\.\s*execute\s*\([^()]*\)\s*\?")
+    ms = pos(mbody, r"\.\s*sync_globals_to_hashmap\s*\(")
+    mr = pos(mbody, r"\.\s*register_exports\s*\(")
+    if not (me and mr):
+        raise ExtractError("compile_module: execute()? / register_exports not found; Model/Session.v:load_modules is out of date")
+    if not min(me) < min(mr):
+        raise ExtractError("compile_module: exports are registered before the module runs; Model/Session.v:load_modules is out of date")
+    module_sync = bool(ms) and min(me) < min(ms) < min(mr)
+    # ------------------------------------------------------------------ host calls
     kinds = strip_comments(rd("runtime/src/vm/call_api/kinds.rs"))
     cached = strip_comments(rd("runtime/src/vm/call_api/cached.rs"))
-    for name, txt in (("kinds.rs", kinds), ("cached.rs", cached)):
-        if "self.prepare_globals_for_function(" not in txt or "self.push_frame(frame)?" not in txt or "self.run_fast()" not in txt:
-            raise ExtractError(f"call_api/{name}: host call shape (prepare, push_frame, run_fast) not recognised")
-    host_clears = ("clear_frames()" in kinds or "self.frames.clear()" in kinds) and ("clear_frames()" in cached or "self.frames.clear()" in cached)
-    cached_gmap = len(re.findall(r"frame\s*\.\s*global_mapping_id\s*=\s*gmap_id\s*;", cached)) >= 2
-    calls = strip_comments(rd("runtime/src/vm/dispatch/ops/calls.inc"))
-    n_old = len(re.findall(r"if\s+needs_switch\s*&&\s*caller_gmap\s*!=\s*0\s*\{\s*self\.sync_current_function_globals\(\);", calls))
-    n_new = len(re.findall(r"if\s+needs_switch\s*\|\|\s*leaving_run_loop\s*\{\s*self\.sync_loaded_globals\(\);", calls))
-    n_leave = len(re.findall(r"let\s+leaving_run_loop\s*=\s*self\.frames\.len\(\)\s*==\s*1\s*;", calls))
-    n_need = len(re.findall(r"let\s+needs_switch\s*=\s*caller_gmap\s*!=\s*0\s*&&\s*caller_gmap\s*!=\s*self\.current_global_mapping_id\s*;", calls))
-    if n_new == 2 and n_leave == 2 and n_need == 2 and n_old == 0:
-        return_syncs_leaving = True
-    else:
-        raise ExtractError("calls.inc: Return/Return0 no longer decide the layout switch by comparing the caller's id with the loaded id "
-                           "and syncing the loaded layout (also when leaving the run loop); Model/GlobalsSync.v:do_return is out of date")
-    # every call path compares the callee's id with the id of the layout that is loaded (c90f0cb)
-    paths = "".join(strip_comments(rd("runtime/src/vm/dispatch/ops/" + f)) for f in
-                    ("calls.inc", "call_global.inc", "call_global_mono.inc", "call_cached.inc", "call_upval.inc", "tail_call_upval.inc"))
-    n_loaded = len(re.findall(r"callee_gmap\s*!=\s*0\s*&&\s*(?:cached\.)?callee_gmap\s*!=\s*self\.current_global_mapping_id\s*\{\s*self\.sync_loaded_globals\(\);", paths))
-    n_frameid = len(re.findall(r"callee_gmap\s*!=\s*global_mapping_id\b", paths))
-    if n_loaded != 13 or n_frameid != 0:
-        raise ExtractError(f"call paths: expected 13 layout switches that compare with the loaded id, found {n_loaded} (and {n_frameid} that compare "
-                           "with the frame's id); Model/GlobalsSync.v:call_enter is out of date")
+    entry = []
+    for fname, txt in (("kinds.rs", kinds), ("cached.rs", cached)):
+        for name, bd in all_fn_bodies(txt):
+            if re.search(r"\.\s*run_fast\s*\(", bd):
+                entry.append((fname, name, bd))
+    if len(entry) < 4:
+        raise ExtractError("call_api: fewer than four host call entry points that run bytecode (run_fast) found")
+    arity_first, host_clears, sets_gmap = True, True, True
+    for fname, name, bd in entry:
+        pp = pos(bd, r"\.\s*prepare_globals_for_function\s*\(")
+        pf = pos(bd, r"\.\s*push_frame\s*\(")
+        pr = pos(bd, r"\.\s*run_fast\s*\(")
+        if not (pp and pf and min(pp) < min(pf) < min(pr)):
+            raise ExtractError(f"call_api/{fname}:{name}: host call shape (prepare, push_frame, run_fast) not recognised")
+        pa = pos(bd, r"!=\s*nargs\b|\bnargs\s*!=|ArityMismatch")
+        arity_first = arity_first and bool(pa) and min(pa) < min(pp)
+        host_clears = host_clears and bool(pos(bd, r"\.\s*clear_frames\s*\(|\.\s*frames\s*\.\s*clear\s*\("))
+        sets_gmap = sets_gmap and bool(pos(bd, r"\.\s*global_mapping_id\s*=\s*[^=;]+;"))
+    # ------------------------------------------------------------------ layout switches of the interpreter
+    files = ("calls.inc", "call_global.inc", "call_global_mono.inc", "call_cached.inc", "call_upval.inc", "tail_call_upval.inc")
+    n_sites, n_loaded, n_other, n_leaving = 0, 0, 0, 0
+    other = []
+    calls_txt = None
+    for f in files:
+        try:
+            txt = strip_comments(rd("runtime/src/vm/dispatch/ops/" + f))
+        except Exception:
+            continue
+        if f == "calls.inc":
+            calls_txt = txt
+        for at in pos(txt, r"\bself\s*\.\s*sync_loaded_globals\s*\("):
+            cond, k = enclosing_guard(txt, at)
+            if cond is None:
+                n_sites += 1
+                n_other += 1
+                other.append(f"{f}: unconditional")
+                continue
+            r = resolve(cond, txt, k)
+            n_sites += 1
+            if any(x in r for x in LOADED):
+                n_loaded += 1
+            else:
+                n_other += 1
+                other.append(f"{f}: {r[:80]}")
+            if any(x in r for x in LEAVING):
+                n_leaving += 1
+    if n_sites == 0 or calls_txt is None:
+        raise ExtractError("dispatch/ops: no layout switch (sync_loaded_globals) found; Model/Session.v:call_enter/do_return are out of date")
+    compare_loaded = n_other == 0
+    if other:
+        notes.append("layout switches whose guard does not mention the loaded layout: " + "; ".join(other[:4]))
+    n_returns = len(pos(calls_txt, r"\bself\s*\.\s*frames\s*\.\s*pop\s*\("))
+    return_syncs_leaving = n_returns > 0 and n_leaving >= n_returns
+    # ------------------------------------------------------------------ run_fast
     run_rs = strip_comments(rd("runtime/src/vm/dispatch/run.rs"))
-    m = re.search(r"pub\s+fn\s+run_fast\s*\(\s*&mut\s+self\s*\)[^{]*\{", run_rs)
-    if not m:
+    rf = fn_body(run_rs, "run_fast")
+    if rf is None:
         raise ExtractError("run.rs: run_fast not found")
-    head = run_rs[m.end():m.end() + 600]
-    unwinds = (re.search(r"let\s+entry_depth\s*=\s*self\.frames\.len\(\)\.saturating_sub\(1\)\s*;", head) is not None
-               and re.search(r"if\s+result\.is_err\(\)\s*\{\s*self\.frames\.truncate\(entry_depth\)\s*;", head) is not None)
-    out = [HEADER.format(src="driver/src/api/repl.rs, runtime/src/vm/call_api/{kinds,cached}.rs, runtime/src/vm/dispatch/ops/calls.inc, runtime/src/vm/dispatch/run.rs"),
+    unwinds = False
+    for m in re.finditer(r"\bself\s*\.\s*frames\s*\.\s*truncate\s*\(\s*([^()]+?)\s*\)", rf):
+        arg = m.group(1)
+        cond, k = enclosing_guard(rf, m.start())
+        in_err = (cond is not None and ("is_err()" in re.sub(r"\s+", "", cond))) or re.search(r"Err\s*\([^)]*\)\s*=>\s*\{[^{}]*$", rf[:m.start()]) is not None
+        depth = resolve(arg, rf, m.start())
+        if in_err and re.search(r"self\.frames\.len\(\)(\.saturating_sub\(1\)|-1)", depth):
+            unwinds = True
+    out = [HEADER.format(src="driver/src/api/repl.rs, driver/src/modules/loader/compile.rs, runtime/src/vm/call_api/{kinds,cached}.rs, "
+                             "runtime/src/vm/dispatch/ops/*.inc, runtime/src/vm/dispatch/run.rs"),
            f"Definition REPL_CLEARS_FRAMES_FIRST : bool := {b(clears_first)}.\n",
+           f"Definition REPL_RECORDS_IMPORTS_AFTER_COMPILE : bool := {b(imports_after_compile)}.\n",
+           f"Definition REPL_SYNCS_AFTER_SUCCESSFUL_RUN : bool := {b(sync_after_run)}.\n",
+           f"Definition MODULE_SYNCS_BEFORE_EXPORTS : bool := {b(module_sync)}.\n",
            f"Definition HOST_CALL_CLEARS_FRAMES : bool := {b(host_clears)}.\n",
+           f"Definition HOST_CALL_CHECKS_ARITY_FIRST : bool := {b(arity_first)}.\n",
+           f"Definition CACHED_FRAME_HAS_MAPPING_ID : bool := {b(sets_gmap)}.\n",
+           f"Definition CALLS_COMPARE_WITH_LOADED_LAYOUT : bool := {b(compare_loaded)}.\n",
            f"Definition RETURN_SYNCS_WHEN_LEAVING : bool := {b(return_syncs_leaving)}.\n",
-           f"Definition CACHED_FRAME_HAS_MAPPING_ID : bool := {b(cached_gmap)}.\n",
-           f"Definition RUN_FAST_UNWINDS_ON_ERROR : bool := {b(unwinds)}.\n"]
+           f"Definition RUN_FAST_UNWINDS_ON_ERROR : bool := {b(unwinds)}.\n",
+           f"(* layout switches found: {n_sites} ({n_loaded} compare with the loaded layout, {n_leaving} also when leaving the run loop; "
+           f"{n_returns} Return handlers); host call entry points running bytecode: {len(entry)} *)\n"]
+    for n in notes:
+        out.append(f"(* note: {n} *)\n")
     return write_if_changed("ReplShape.v", "".join(out))
